@@ -46,14 +46,16 @@ def validate(
 
     def validator(func: Callable) -> Callable:
         is_coroutine = inspect.iscoroutinefunction(func)
+        # the receiver of a method is what is bound to the first parameter of the signature - if that one is called self
+        receiver_name = 'self' if next(iter(inspect.signature(func).parameters), None) == 'self' else None
 
         @wraps(func)
         def wrapper(*args, **kwargs) -> Any:
             result = _wrapper_content(*args, **kwargs)
 
             if return_as == ReturnAs.ARGS:
-                if 'self' in result:
-                    return func(result.pop('self'), **result)
+                if receiver_name in result:
+                    return func(result.pop(receiver_name), **result)
 
                 positional, by_name = _split_by_signature(result=result)
                 return func(*positional, **by_name)
@@ -61,8 +63,8 @@ def validate(
             if return_as == ReturnAs.KWARGS_WITHOUT_NONE:
                 result = {k: v for k, v in result.items() if v is not None}
 
-            if 'self' in result:
-                return func(result.pop('self'), **result)
+            if receiver_name in result:
+                return func(result.pop(receiver_name), **result)
 
             return func(**result)
 
@@ -71,8 +73,8 @@ def validate(
             result = _wrapper_content(*args, **kwargs)
 
             if return_as == ReturnAs.ARGS:
-                if 'self' in result:
-                    return await func(result.pop('self'), **result)
+                if receiver_name in result:
+                    return await func(result.pop(receiver_name), **result)
 
                 positional, by_name = _split_by_signature(result=result)
                 return await func(*positional, **by_name)
@@ -80,8 +82,8 @@ def validate(
             if return_as == ReturnAs.KWARGS_WITHOUT_NONE:
                 result = {k: v for k, v in result.items() if v is not None}
 
-            if 'self' in result:
-                return await func(result.pop('self'), **result)
+            if receiver_name in result:
+                return await func(result.pop(receiver_name), **result)
 
             return await func(**result)
 
@@ -150,7 +152,7 @@ def validate(
                         used_parameter_names.append(parameter.name)
                         used_args.append(bound_args[k])
                     else:
-                        if strict and k != 'self':
+                        if strict and k != receiver_name:
                             raise TooManyArguments(f'Got more arguments expected: No parameter found for argument {k}')
                         else:
                             result[k] = bound_args[k]
